@@ -7,11 +7,13 @@ import TboxModel.Util
 import TboxModel.C02.Model
 open Tbox.Util Tbox.C02
 
-def bitsOf (s : State) : String :=
+/-- isEnabled() vector; objects owned by the TimerPool (ids in `pool`) show `p` while armed, `x` once gone -/
+def bitsOf (s : State) (pool : List Nat := []) : String :=
   if s.nObjs = 0 then "-" else
   String.ofList ((List.range s.nObjs).map fun j =>
     let o := s.obj j
-    if !o.alive then 'x' else if o.inited && o.enabled then '1' else '0')
+    if pool.contains j then (if o.alive && o.inited && o.enabled then 'p' else 'x')
+    else if !o.alive then 'x' else if o.inited && o.enabled then '1' else '0')
 
 def parseAct (w : String) : Option Act :=
   match w.toList with
@@ -27,21 +29,34 @@ def parseAct (w : String) : Option Act :=
   | 'x' :: rest => (String.ofList rest).toNat?.map .destroy
   | _ => none
 
-def parseScript (w : String) (self : Nat) : Option (List Act) :=
-  if w == "-" then some [] else
-  (w.splitOn ",").mapM fun item => do
+/-- `c<k>` = TimerPool::cancel of pool timer k: disable it and (deferred in the code) delete it -/
+def parseItem (item : String) (self : Nat) (poolScript : Bool) : Option (List Act) :=
+  match item.toList with
+  | 'c' :: rest => if poolScript then (String.ofList rest).toNat?.map fun k => [.disable k, .destroy k] else none
+  | _ => if poolScript then none else do
     let a ← parseAct item
     match a with
-    | .destroy j => if j = self then none else some a
-    | _ => some a
+    | .destroy j => if j = self then none else some [a]
+    | _ => some [a]
+
+def parseScript (w : String) (self : Nat) (poolScript : Bool := false) : Option (List Act) :=
+  if w == "-" then some [] else
+  ((w.splitOn ",").mapM fun item => parseItem item self poolScript).map List.flatten
 
 inductive POp where
   | new (sc : List Act) | api (a : Act) | adv (d : Nat) | engine (e : String) | bad
+  | pnew (after : Bool) (ms : Nat) (sc : List Act) | pcancel (k : Nat) | pcleanup
 
 def parseOp (s : State) (ws : List String) : POp :=
   match ws with
   | ["engine", e] => if (e == "epoll" || e == "select") && s.nObjs == 0 then .engine e else .bad
   | ["new", sc] => match parseScript sc s.nObjs with | some l => .new l | none => .bad
+  | ["pafter", ms, sc] => match ms.toNat?, parseScript sc (s.nObjs + 1000000) true with
+      | some n, some l => if 1 ≤ n ∧ n ≤ 100000 then .pnew true n l else .bad | _, _ => .bad
+  | ["pevery", ms, sc] => match ms.toNat?, parseScript sc (s.nObjs + 1000000) true with
+      | some n, some l => if 1 ≤ n ∧ n ≤ 100000 then .pnew false n l else .bad | _, _ => .bad
+  | ["pcancel", k] => match k.toNat? with | some k => .pcancel k | none => .bad
+  | ["pcleanup"] => .pcleanup
   | ["adv", d] => match d.toNat? with | some n => if n ≤ 100000 then .adv n else .bad | none => .bad
   | ["init", j, ms, m] => match parseAct ("i" ++ j ++ ":" ++ ms ++ ":" ++ m) with
       | some (.init j ms o) => if j < s.nObjs then .api (.init j ms o) else .bad | _ => .bad
@@ -56,6 +71,8 @@ structure TAcc where
   tags : List String := []
   err : Option String := none
   nops : Nat := 0
+  pool : List Nat := []      -- object ids owned by the TimerPool
+  mode : Nat := 0            -- 0 undecided, 1 plain TimerEvent case, 2 TimerPool case
 
 def expectLine (a : TAcc) (want : String) (what : String) : TAcc :=
   match a.tl with
@@ -82,7 +99,7 @@ partial def firePass (a : TAcc) (seen : List Nat) : TAcc :=
           else
             -- isEnabled() vector at callback entry: a one-shot already reports disabled
             let sEntry := if r.oneshot then a.s.setObj j { a.s.obj j with enabled := false } else a.s
-            let want := "en=" ++ bitsOf sEntry
+            let want := "en=" ++ bitsOf sEntry a.pool
             if en != want then { a with err := some s!"op#{a.nops} at entry of callback {j}: impl=[{en}] model=[{want}]" }
             else
               let ties := (a.s.timers.filter fun q => q.expired == r.expired).length
@@ -99,15 +116,39 @@ partial def firePass (a : TAcc) (seen : List Nat) : TAcc :=
 def stepOp (a : TAcc) (line : String) : TAcc :=
   if a.err.isSome then a else
   let a := { a with nops := a.nops + 1 }
-  match parseOp a.s (words line) with
+  let op := parseOp a.s (words line)
+  let isPool := match op with | .pnew _ _ _ => true | .pcancel _ => true | .pcleanup => true | _ => false
+  let isPlain := match op with | .new _ => true | .api _ => true | _ => false
+  let op := if (isPool && a.mode == 1) || (isPlain && a.mode == 2) then POp.bad else op
+  let op := match words line with   -- a malformed plain/pool op in the wrong kind of case is still just bad-op
+    | _ => op
+  let a := match op with
+    | .bad => a
+    | _ => if isPool then { a with mode := 2 } else if isPlain then { a with mode := 1 } else a
+  match op with
   | .bad => expectLine a "bad-op" "malformed op"
   | .engine e => expectLine { a with tags := a.tags ++ [e] } ("P engine=" ++ e) "engine"
   | .new sc =>
       let s' := step a.s (.newObj sc)
-      expectLine { a with s := s' } ("P ret=1 en=" ++ bitsOf s') "new"
+      expectLine { a with s := s' } ("P ret=1 en=" ++ bitsOf s' a.pool) "new"
+  | .pnew after ms sc =>
+      -- TimerPool::doAfter / doEvery = newTimerEvent + initialize + setCallback + enable;
+      -- the doAfter wrapper frees the token and deletes the timer after the user callback
+      let j := a.s.nObjs
+      let s1 := step a.s (.newObj (if after then sc ++ [.destroy j] else sc))
+      let s2 := step (step s1 (.api (.init j ms after))) (.api (.enable j))
+      let pool := j :: a.pool
+      expectLine { a with s := s2, pool := pool, tags := a.tags ++ ["pool"] } ("P ret=1 en=" ++ bitsOf s2 pool) "pool new"
+  | .pcancel k =>
+      let live := a.pool.contains k && (a.s.obj k).alive
+      let s' := if live then step (step a.s (.api (.disable k))) (.api (.destroy k)) else a.s
+      expectLine { a with s := s' } ("P ret=" ++ (if live then "1" else "0") ++ " en=" ++ bitsOf s' a.pool) "pool cancel"
+  | .pcleanup =>
+      let s' := a.pool.foldl (fun st k => step (step st (.api (.disable k))) (.api (.destroy k))) a.s
+      expectLine { a with s := s' } ("P ret=1 en=" ++ bitsOf s' a.pool) "pool cleanup"
   | .api act_ =>
       let (s', r) := act a.s act_
-      expectLine { a with s := s' } ("P ret=" ++ (if r then "1" else "0") ++ " en=" ++ bitsOf s') "api result"
+      expectLine { a with s := s' } ("P ret=" ++ (if r then "1" else "0") ++ " en=" ++ bitsOf s' a.pool) "api result"
   | .adv d =>
       let s1 := step (step a.s (.advance d)) .beginPass
       let a1 := firePass { a with s := s1 } []
@@ -119,7 +160,7 @@ def stepOp (a : TAcc) (line : String) : TAcc :=
         let s2 := step a1.s .endPass
         let fired := a1.s.log.length - a.s.log.length
         let tg := if fired = 0 then "pass0" else if fired = 1 then "pass1" else "passN"
-        expectLine { a1 with s := s2, tags := a1.tags ++ [tg] } ("P ret=1 en=" ++ bitsOf s2) "after pass"
+        expectLine { a1 with s := s2, tags := a1.tags ++ [tg] } ("P ret=1 en=" ++ bitsOf s2 a1.pool) "after pass"
 
 structure DS where
   ops : Array String := #[]
